@@ -330,6 +330,21 @@ func runC15(c *fw.Case) (o fw.Outcome) {
 		}
 		o.Count("wider_used_buffer_calls", 3)
 	}
+	if c.Idx%8 == 6 {
+		// SQN and AMF handed over as VIEWS of the token buffer (a caller that keeps one AUTN buffer, de-conceals the SQN in
+		// place and counts on from there): the inputs are read before the token is written
+		tok := make([]byte, 16)
+		copy(tok[0:6], sqnNet)
+		copy(tok[6:8], amf)
+		vIk, vCk, vAk, vRes := make([]byte, 16), make([]byte, 16), make([]byte, 6), make([]byte, 8)
+		vLen := uint(8)
+		milenage.MilenageGenerate(opc, tok[6:8], k, tok[0:6], rnd, tok, vIk, vCk, vAk, vRes, &vLen)
+		if !bytes.Equal(tok, wAutn) || !bytes.Equal(vRes, wRes) {
+			o.Fail("generate", "MilenageGenerate with SQN and AMF given as views of the AUTN buffer: autn=%x res=%x; reference autn=%x res=%x", tok, vRes, wAutn, wRes)
+			return
+		}
+		o.Count("calls_with_inputs_aliasing_the_output", 1)
+	}
 	// ---- checking: the accept-iff-valid predicate
 	fresh := sqnLess(sqnUE, sqnNet)
 	check := func(a []byte) (ret int, res, ck, ik, auts []byte) {
